@@ -26,7 +26,7 @@ def kernel(ctx, cls, meth):
         raise AnalysisError("anchor method missing: %s.%s" % (cls, meth))
     k = ctx.cache.get(("kernel", f.qual, cls))
     if k is None:
-        k = Kernel(ctx, f.qual, cls)
+        k = Kernel(ctx, f.qual, cls, inline_foreign=True)
         ctx.cache[("kernel", f.qual, cls)] = k
     return k
 
